@@ -12,7 +12,9 @@ git -C $WT checkout -q -- . ; git -C $WT status --short | grep -v '^??' && { ech
 echo "[1] demo on clean tree"; (cd $SD && TMPDIR=/tmp bash ./demo.sh $WT) >> $LOG 2>&1; R1=$?; echo "    exit=$R1"
 echo "[2] apply patch"; git -C $WT apply $SD/patch.diff || { echo "patch does not apply"; exit 2; }
 echo "[3] build"; (cd $WT && cargo build --offline) >> $LOG 2>&1; R3=$?; echo "    exit=$R3"
-echo "[4] test suite"; (cd $WT && cargo test --workspace --no-fail-fast --offline) > /tmp/seed_confirm_${p}_$V.test 2>&1; R4=$?; grep -E "^test result" /tmp/seed_confirm_${p}_$V.test | tr '\n' ' '; echo "    exit=$R4"
+echo "[4] test suite"; (cd $WT && cargo test --workspace --no-fail-fast --offline) > /tmp/seed_confirm_${p}_$V.test 2>&1; R4=$?;
+# cache::test::return_none_if_different_transform_was_used is flaky under load also on the unchanged tree (sled lock, WouldBlock): one retry
+if [ $R4 -ne 0 ]; then (cd $WT && cargo test --workspace --no-fail-fast --offline) > /tmp/seed_confirm_${p}_$V.test 2>&1; R4=$?; fi; grep -E "^test result" /tmp/seed_confirm_${p}_$V.test | tr '\n' ' '; echo "    exit=$R4"
 echo "[5] demo with patch"; (cd $SD && TMPDIR=/tmp bash ./demo.sh $WT) >> $LOG 2>&1; R5=$?; echo "    exit=$R5"
 git -C $WT checkout -q -- . ; git -C $WT clean -fdq -e target
 if [ $R1 -eq 0 ] && [ $R3 -eq 0 ] && [ $R4 -eq 0 ] && [ $R5 -ne 0 ]; then
